@@ -326,8 +326,8 @@ theorem world_stream (key : Val → Val) (ord : List (Val × Subj) → List (Val
   rw [happ, World.init, world_items]
   cases t with
   | next v => cases ht
-  | error e => simp [World.run, World.step, chainFinished, pushOuter_nil, St.runStream]
-  | complete => simp [World.run, World.step, chainFinished, pushOuter_nil, St.runStream]
+  | error e => simp [World.run, World.step, pushOuter_nil, St.runStream]
+  | complete => simp [World.run, World.step, pushOuter_nil, St.runStream]
 
 end GroupBy
 end Rx
